@@ -20,7 +20,8 @@ for s in (0, 1, 2):
                           'bounds': '%s, first bucket %d; one grower, range [a, a+len) anywhere below index %d, both allocation paths (single index / range); '
                                     'every bucket >= 2 initially null or foreign (symbolic); checks placed before the final wait loop' % (STRAT[s], f, 16 * f)})
         INSTANCES.append({'name': 'own_seq_s%d_f%d' % (s, f), 'src': 'ownership.cpp', 'engine': 'cbmc', 'checks': CHECKS,
-                          'defs': {'VF_STRATEGY': s, 'VF_F': f, 'VF_MODE': 1}, 'unwind': 8, 'timeout': 1500, 'tiers': ['thorough'],
+                          'defs': {'VF_STRATEGY': s, 'VF_F': f, 'VF_MODE': 1}, 'unwind': 8, 'timeout': 1500,
+                          'tiers': ['quick', 'thorough'] if (s == 2 and f == 1) else ['thorough'],
                           'bounds': '%s, first bucket %d; two growers with symbolic ranges [a,b) <= [c,d) below index %d, run in index order, gap owned by a finished third party; '
                                     'wait loops must not spin (unwinding assertions on)' % (STRAT[s], f, 16 * f)})
 for s in (0, 1, 2):
